@@ -1407,7 +1407,7 @@ fn parse_reference(
 ) -> Result<NodeId, ParsingError>
 {
 	let first_token_id = tokens.cursor();
-	let mut address_depth = 1;
+	let mut address_depth = 0;
 	while tokens.consume_optional(BaseToken::Ampersand)
 	{
 		address_depth += 1;
@@ -1423,7 +1423,9 @@ fn parse_reference(
 	let steps = parse_deref_steps_list(tokens, buffer)?;
 	buffer.push_list(steps);
 	buffer.push_undeclared(ParseNode::Identifier { identifier });
-	buffer.push_undeclared(ParseNode::DerefAddressDepth { depth: 0 });
+	buffer.push_undeclared(ParseNode::DerefAddressDepth {
+		depth: address_depth,
+	});
 	let expression = buffer.push(ParseNode::Deref {
 		start_of_reference: first_token_id.into(),
 	});
